@@ -709,21 +709,25 @@ def check_C07(A, R, tier):
 
 
 def iteration_completes(A, run):
-    """does the partition run of the signal processor finish handling its signal normally (reach the loop head again on taken
-    edges without passing an error exit)?"""
-    sp = A.signal_processor()
-    heads = [h for h in set(h for (_, h) in sp.back_edges())
-             if sp.term(h)["k"] == "call" and "Drain" in (M.callee_name(sp.term(h)) or "") and (M.callee_name(sp.term(h)) or "").endswith("::next")]
-    if len(heads) != 1:
-        raise Imprecision("cannot identify the signal loop")
-    h = heads[0]
-    loop = sp.natural_loop(h)
-    sw = sp.term(h)["t"]
-    fid = run._index().get((sp.name, ()))
-    if fid is None:
-        raise Imprecision("signal processor frame not found")
-    errs = error_exit_blocks(A, sp) | residual_blocks(sp)
-    for s0 in [s_ for s_ in sp.succs(sw) if s_ in loop]:
+    """does the partition run of the signal processor finish handling its signal normally (reach the head of the loop that
+    binds the signal's job again, on taken edges, without passing an error exit)?"""
+    cands = []
+    for sym, (roles, _c) in run.syms.items():
+        vias = [r[1] for r in roles if isinstance(r, tuple) and r[0] == "via"]
+        exact = "sigtarget" in roles or (vias and all(set(v) == {"sigtarget"} for v in vias))
+        if isinstance(sym, tuple) and sym[0] == "b" and exact and sym[1] in run.frames:
+            body = A.facts.body(run.frames[sym[1]][0])
+            if body is not None and len(body.natural_loop(sym[2])) > 1:
+                cands.append((sym[1], body, sym[2]))
+    cands = sorted(set((f, b.name, h) for (f, b, h) in cands))
+    if len(cands) != 1:
+        raise Imprecision("cannot identify the signal loop (%d candidates)" % len(cands))
+    fid, bn, h = cands[0]
+    body = A.facts.body(bn)
+    loop = body.natural_loop(h)
+    sw = body.term(h)["t"]
+    errs = error_exit_blocks(A, body) | residual_blocks(body)
+    for s0 in [s_ for s_ in body.succs(sw) if s_ in loop]:
         if h in run.taken_reachable(fid, s0, errs):
             return True
     return False
